@@ -1,4 +1,4 @@
-//@unit c11_decl props=C11,C12 widths=u32
+//@unit c11_decl props=C11,C12,C09 widths=u32
 //@use prelude/head.rs
 //@use prelude/strs.rs
 
@@ -66,7 +66,7 @@ impl DeclParser {
         ensures
             !(decl_word_kind(i as int) == 1 || decl_word_kind(i as int) == 2) ==> r is Err && final(self).decl_log@ == old(self).decl_log@, // OBL: C11.only_s_and_x_words_declare_start_states
             r matches Ok(k) ==> k > i, // OBL: C12.lex.parse_declaration.ok_advances
-            (decl_word_kind(i as int) == 1 || decl_word_kind(i as int) == 2) ==> final(self).decl_log@ == old(self).decl_log@.push((decl_word_kind(i as int) == 2, i, decl_len_spec(i as int) as usize, line_len_spec(i as int) as usize)), // OBL: C11.x_words_declare_exclusive_states_s_words_inclusive
+            (decl_word_kind(i as int) == 1 || decl_word_kind(i as int) == 2) ==> final(self).decl_log@ == old(self).decl_log@.push((decl_word_kind(i as int) == 2, i, decl_len_spec(i as int) as usize, line_len_spec(i as int) as usize)), // OBL: C11.x_words_declare_exclusive_states_s_words_inclusive C09.x_words_declare_exclusive_states_s_words_inclusive
     {
         //@probe
         //@body file=lrlex/src/lib/parser.rs fn=parse_declaration
@@ -90,7 +90,7 @@ impl DeclParser {
             final(self).start_states@.len() >= old(self).start_states@.len(),
             forall|k: int| 0 <= k < old(self).start_states@.len() ==> final(self).start_states@[k] == old(self).start_states@[k],
             forall|k: int| old(self).start_states@.len() <= k < final(self).start_states@.len() ==> reads((#[trigger] final(self).start_states@[k]).name_span, final(self).start_states@[k].name), // OBL: C11.start_state_name_span_reads_the_name_in_the_source.stored
-            forall|k: int| old(self).start_states@.len() <= k < final(self).start_states@.len() ==> (#[trigger] final(self).start_states@[k]).exclusive == exclusive, // OBL: C11.declared_states_get_the_kind_of_their_declaration
+            forall|k: int| old(self).start_states@.len() <= k < final(self).start_states@.len() ==> (#[trigger] final(self).start_states@[k]).exclusive == exclusive, // OBL: C11.declared_states_get_the_kind_of_their_declaration C09.declared_states_get_the_kind_of_their_declaration
             forall|k: int| 0 <= k < final(self).start_states@.len() ==> (#[trigger] final(self).start_states@[k]).id == k, // OBL: C11.start_state_ids_are_their_positions
             forall|k: int| old(self).start_states@.len() <= k < final(self).start_states@.len() ==> i0 + declaration_len <= (#[trigger] final(self).start_states@[k]).name.off && final(self).start_states@[k].name.off + final(self).start_states@[k].name.len <= i0 + line_len, // OBL: C11.declared_names_come_from_the_rest_of_the_declaration_line
             forall|a: int, b: int| old(self).start_states@.len() <= a < b < final(self).start_states@.len() ==> (#[trigger] final(self).start_states@[a]).name.off < (#[trigger] final(self).start_states@[b]).name.off, // OBL: C11.declared_states_in_source_order
